@@ -123,7 +123,10 @@ def check_c11(ctx):
     res.update(run_cases(ctx, runp4, "prefix"))
     # a base fact stated for the rule-defined predicate itself
     allp5 = os.path.join(ctx.work, "dstfact_all.ndjson")
-    g5 = ctx.gen_cases("BoundsGen", "BoundsGen_dstfact.cfg", allp5, workers=8, idprefix="d-")
+    if quick:
+        g5 = ctx.gen_cases("BoundsGen", "BoundsGen_dstfact_sim.cfg", allp5, simulate=dict(num=14000, depth=3), idprefix="d-")
+    else:
+        g5 = ctx.gen_cases("BoundsGen", "BoundsGen_dstfact.cfg", allp5, workers=8, idprefix="d-")
     runp5 = os.path.join(ctx.work, "dstfact.ndjson")
     n5 = evalfam.sample_file(allp5, runp5, 12000 if quick else None, rnd)
     ctx.notes["generators"].update(dstfact_programs=g5["cases"], dstfact_programs_executed=n5)
